@@ -45,6 +45,25 @@ def contracts():
             "same_object(call_arg('page_exists', -1, 0), title)",
             "same_object(call_arg('page_exists', -1, 1), ns_id)"]},
         ensures=["logged('page_exists') == 4", "logged('add_page') <= 4", "sql_kind(-1) == 'commit'"]))
+    # the pipeline: the dump is ingested (unless skipped) BEFORE the built-in helper templates are considered, these
+    # before the analysis, and the analysis gets the caller's arguments
+    cs.append(Contract(
+        target="dumpparser:process_dump", prop="C12", mode="frame",
+        params={"wtp": "ctx", "path": "str", "namespace_ids": "intset", "overwrite_folders": "opq",
+                "skip_extract_dump": "bool", "save_pages_path": "opq", "analyze_template_func": "opq"},
+        requires=["'Template' in wtp.NAMESPACE_DATA"],
+        track_log=True, log_names=["parse_dump_xml", "add_default_templates", "analyze_and_overwrite_pages"],
+        asserts={"add_default_templates(wtp)": [
+            "logged('parse_dump_xml') == (0 if skip_extract_dump else 1)",
+            "logged('analyze_and_overwrite_pages') == 0", "logged('add_default_templates') == 0"]},
+        ensures=["logged('add_default_templates') == 1", "logged('analyze_and_overwrite_pages') == 1",
+                 "logged('parse_dump_xml') == (0 if skip_extract_dump else 1)",
+                 # (argument positions as logged: the context argument is not counted)
+                 "same_object(call_arg('analyze_and_overwrite_pages', 0, 0), overwrite_folders)",
+                 "same_object(call_arg('analyze_and_overwrite_pages', 0, 1), skip_extract_dump)",
+                 "same_object(call_arg('analyze_and_overwrite_pages', 0, 2), analyze_template_func)",
+                 "implies(not skip_extract_dump, same_object(call_arg('parse_dump_xml', 0, 0), path))",
+                 "implies(not skip_extract_dump, same_object(call_arg('parse_dump_xml', 0, 1), namespace_ids))"]))
     cs.append(template_to_body_contract())
     # a template page is stored with exactly the reduction of the body it was given; any other page verbatim
     cs.append(Contract(
